@@ -74,6 +74,50 @@ fn gen_amount(rng: &mut Rng) -> AmountSel {
   }
 }
 
+fn gen_accept(rng: &mut Rng) -> WalletCmd {
+  use OfferFlaw::*;
+  // most offers are valid or deviate in exactly one respect
+  let n_flaws = *rng.pick(&[0usize, 0, 1, 1, 1, 1, 2]);
+  let flaws = (0..n_flaws)
+    .map(|_| match rng.below(12) {
+      0 => ExtraWalletCardinal,
+      1 => ExtraWalletInscribed,
+      2 => SellerHoldsSeveral,
+      3 => SellerHoldsRunes,
+      4 => SellerCardinal,
+      5 => NoWalletInput,
+      6 => AmountOff(*rng.pick(&[1i64, -1, 546, -546, 10_000, -10_000])),
+      7 => AmountOff(rng.below(100_000) as i64 - 50_000),
+      8 => OtherInscription,
+      9 => BuyerUnsigned(rng.below(3) as u8),
+      10 => SellerPresigned,
+      _ => PaymentElsewhere,
+    })
+    .collect();
+  let sign_fault = if rng.chance(1, 3) {
+    Some(*rng.pick(&[
+      SignFault::AlterOnProcess,
+      SignFault::AlterOnFinalize,
+      SignFault::MoveToScriptSig,
+      SignFault::ExtraInput,
+      SignFault::DropInput,
+    ]))
+  } else {
+    None
+  };
+  WalletCmd::Accept {
+    seller: rng.below(16) as u32,
+    buyers: (0..1 + rng.usize(3)).map(|_| rng.below(64) as u32).collect(),
+    buyer_scriptsig: if rng.chance(1, 4) { Some(rng.below(3) as u8) } else { None },
+    seller_pos: rng.below(4) as u8,
+    price: *rng.pick(&[0u64, 1, 546, 10_000, 15_000, 90_000, 900_000]),
+    flaws,
+    sign_fault,
+    dry_run: rng.chance(1, 10),
+    extra_signed: rng.chance(1, 2),
+  }
+}
+
 pub fn gen_wallet(property: &str, seed: u64, thorough: bool) -> Scenario {
   let root = Rng::new(seed);
   let mut crng = root.fork("config");
@@ -105,7 +149,7 @@ pub fn gen_wallet(property: &str, seed: u64, thorough: bool) -> Scenario {
   ops.push(Op::Mine((0..n0).map(|_| block(vec![], script())).collect()));
 
   // inscriptions on wallet outputs
-  let n_insc = 1 + wrng.usize(3);
+  let n_insc = if property == "C24" { 4 + wrng.usize(3) } else { 1 + wrng.usize(3) };
   let mut txs = Vec::new();
   for _ in 0..n_insc {
     txs.push(TxSpec {
@@ -212,6 +256,47 @@ pub fn gen_wallet(property: &str, seed: u64, thorough: bool) -> Scenario {
     });
   }
   ops.push(Op::Mine(vec![block(txs, script()), block(vec![], script())]));
+  if property == "C24" {
+    // offers: an output holding two inscriptions, an inscribed output that
+    // also holds runes, and outputs of a counterparty
+    let mut txs = Vec::new();
+    let plain = |sel: InputSel| InSpec {
+      sel,
+      witness: WitnessSpec::None,
+    };
+    let simple = |inputs: Vec<InSpec>, outputs: Vec<OutSpec>| TxSpec {
+      inputs,
+      outputs,
+      fee_permille: 0,
+      fee_exact: Some(700),
+      runestone: None,
+      runestone_at: 0,
+      runestone_value: 0,
+    };
+    if wrng.chance(3, 4) {
+      txs.push(simple(
+        vec![plain(InputSel::Inscribed(0)), plain(InputSel::Inscribed(1))],
+        vec![wallet_out(script(), 20_000), change_out(script())],
+      ));
+    }
+    if wrng.chance(3, 4) {
+      txs.push(simple(
+        vec![plain(InputSel::Inscribed(2)), plain(InputSel::Runic(wrng.below(4) as u32))],
+        vec![wallet_out(script(), 10_000), change_out(script())],
+      ));
+    }
+    let n_foreign = 3 + wrng.usize(4);
+    let mut outs: Vec<OutSpec> = (0..n_foreign)
+      .map(|i| OutSpec {
+        weight: 0,
+        exact: Some(*wrng.pick(&[20_000u64, 100_000, 1_000_000, 50_000_000])),
+        script: ScriptSpec::P2tr(600 + i as u16),
+      })
+      .collect();
+    outs.push(change_out(script()));
+    txs.push(simple(vec![plain(InputSel::Utxo(wrng.below(1 << 16) as u32))], outs));
+    ops.push(Op::Mine(vec![block(txs, script())]));
+  }
   ops.push(Op::Update(UpdateSpec {
     lag: 31,
     ..Default::default()
@@ -226,6 +311,7 @@ pub fn gen_wallet(property: &str, seed: u64, thorough: bool) -> Scenario {
     let fee_rate = 1 + wrng.below(20) as u32;
     let rune = wrng.below(4) as u32;
     let cmd = match (property, wrng.below(10)) {
+      ("C24", _) => gen_accept(&mut wrng),
       ("C21", _) => WalletCmd::Batch {
         mode: wrng.below(3) as u8,
         count: 1 + wrng.below(4) as u8,
@@ -375,6 +461,38 @@ enum Expect {
     parents: Vec<ord::InscriptionId>,
     count: usize,
   },
+  Accept(Box<Offer>),
+}
+
+/// What was presented to `wallet offer accept`.
+#[derive(Debug, Clone)]
+struct Offer {
+  psbt: bitcoin::Psbt,
+  inscription: ord::InscriptionId,
+  amount: u64,
+  dry_run: bool,
+  sign_fault: Option<SignFault>,
+}
+
+/// Inscriptions on an output, by the reference model.
+fn inscriptions_on(m: &Model, o: &OutPoint) -> Vec<ord::InscriptionId> {
+  let Some(u) = m.utxos.get(o) else {
+    return Vec::new();
+  };
+  m.inscr
+    .list
+    .iter()
+    .filter(|i| i.sat.is_some_and(|s| crate::model::offset_of(&u.ranges, s).is_some()))
+    .map(|i| i.id)
+    .collect()
+}
+
+fn foreign_signature(o: &OutPoint) -> bitcoin::Witness {
+  let mut w = bitcoin::Witness::new();
+  let mut sig = vec![0x42u8; 32];
+  sig.extend_from_slice(&bitcoin::hashes::Hash::to_byte_array(o.txid));
+  w.push(sig);
+  w
 }
 
 struct Resolved {
@@ -477,6 +595,219 @@ fn resolve(cmd: &WalletCmd, ex: &Exec, m: &Model, wv: &WalletView) -> Option<Res
         ],
         expect: Expect::Mint(id),
         describe: format!("mint {spaced}"),
+      })
+    }
+    WalletCmd::Accept {
+      seller,
+      buyers,
+      buyer_scriptsig,
+      seller_pos,
+      price,
+      flaws,
+      sign_fault,
+      dry_run,
+      extra_signed,
+    } => {
+      use OfferFlaw::*;
+      let has = |f: &OfferFlaw| flaws.iter().any(|x| std::mem::discriminant(x) == std::mem::discriminant(f));
+      let view = ex.sim.snapshot(|s| s.world.spendable_view());
+      // wallet outputs by what they hold
+      let mut single = Vec::new();
+      let mut several = Vec::new();
+      let mut runic_inscribed = Vec::new();
+      let mut cardinal = Vec::new();
+      let mut foreign = Vec::new();
+      for (o, (txout, height)) in &view {
+        if height.is_none() {
+          continue;
+        }
+        if !wv.owned.contains(&txout.script_pubkey) {
+          if txout.value.to_sat() >= 10_000 {
+            foreign.push(*o);
+          }
+          continue;
+        }
+        let ids = inscriptions_on(m, o);
+        let runes = holdings(m, o).0;
+        match (ids.len(), runes.is_empty()) {
+          (0, true) => cardinal.push(*o),
+          (0, false) => {}
+          (_, false) => runic_inscribed.push(*o),
+          (1, true) => single.push(*o),
+          (_, true) => several.push(*o),
+        }
+      }
+      let pick = |list: &Vec<OutPoint>, k: u32| -> Option<OutPoint> {
+        if list.is_empty() { None } else { Some(list[k as usize % list.len()]) }
+      };
+      let seller_out = if has(&NoWalletInput) {
+        None
+      } else if has(&SellerHoldsSeveral) && !several.is_empty() {
+        pick(&several, *seller)
+      } else if has(&SellerHoldsRunes) && !runic_inscribed.is_empty() {
+        pick(&runic_inscribed, *seller)
+      } else if has(&SellerCardinal) && !cardinal.is_empty() {
+        pick(&cardinal, *seller)
+      } else {
+        Some(pick(&single, *seller)?)
+      };
+      // the inscription named on the command line
+      let on_seller = seller_out.map(|o| inscriptions_on(m, &o)).unwrap_or_default();
+      let held: Vec<ord::InscriptionId> = single
+        .iter()
+        .chain(&several)
+        .chain(&runic_inscribed)
+        .flat_map(|o| inscriptions_on(m, o))
+        .collect();
+      let mut named = on_seller
+        .get(*seller as usize % on_seller.len().max(1))
+        .copied()
+        .or_else(|| held.first().copied())?;
+      if has(&OtherInscription)
+        && let Some(other) = held.iter().find(|i| !on_seller.contains(i))
+      {
+        named = *other;
+      }
+      // inputs
+      if foreign.is_empty() {
+        return None;
+      }
+      let mut buyer_outs: Vec<OutPoint> = Vec::new();
+      for k in buyers {
+        let o = foreign[*k as usize % foreign.len()];
+        if !buyer_outs.contains(&o) {
+          buyer_outs.push(o);
+        }
+      }
+      let mut inputs: Vec<OutPoint> = buyer_outs.clone();
+      if let Some(s) = seller_out {
+        inputs.insert(*seller_pos as usize % (inputs.len() + 1), s);
+      }
+      if has(&ExtraWalletCardinal)
+        && let Some(o) = pick(&cardinal, seller + 1)
+        && !inputs.contains(&o)
+      {
+        inputs.push(o);
+      }
+      if has(&ExtraWalletInscribed)
+        && let Some(o) = single.iter().chain(&several).find(|o| !inputs.contains(o))
+      {
+        if seller_pos % 2 == 0 {
+          inputs.insert(0, *o);
+        } else {
+          inputs.push(*o);
+        }
+      }
+      let value = |o: &OutPoint| view[o].0.value.to_sat();
+      let buyer_total: u64 = buyer_outs.iter().map(value).sum();
+      let wallet_in: u64 = inputs.iter().filter(|o| wv.owned.contains(&view[o].0.script_pubkey)).map(value).sum();
+      let price = (*price).min(buyer_total.saturating_sub(2_000));
+      let seller_value = seller_out.as_ref().map(value).unwrap_or(0);
+      let buyer_script = script_for(&ScriptSpec::P2tr(700));
+      let pay_script = if has(&PaymentElsewhere) {
+        script_for(&ScriptSpec::P2tr(701))
+      } else {
+        crate::wallet_node::wallet_script(WALLET, 40 + (*seller % 20))
+      };
+      let payment = seller_value + price;
+      let total_in: u64 = inputs.iter().map(value).sum();
+      let mut output = vec![
+        bitcoin::TxOut {
+          value: bitcoin::Amount::from_sat(seller_value.max(546)),
+          script_pubkey: buyer_script.clone(),
+        },
+        bitcoin::TxOut {
+          value: bitcoin::Amount::from_sat(payment),
+          script_pubkey: pay_script.clone(),
+        },
+      ];
+      let spent: u64 = output.iter().map(|o| o.value.to_sat()).sum();
+      if total_in > spent + 1_500 {
+        output.push(bitcoin::TxOut {
+          value: bitcoin::Amount::from_sat(total_in - spent - 1_000),
+          script_pubkey: buyer_script,
+        });
+      } else if total_in < spent {
+        return None;
+      }
+      let wallet_out_total: u64 = output
+        .iter()
+        .filter(|o| wv.owned.contains(&o.script_pubkey))
+        .map(|o| o.value.to_sat())
+        .sum();
+      let true_change = wallet_out_total as i64 - wallet_in as i64;
+      let mut claim = true_change;
+      for f in flaws {
+        if let AmountOff(d) = f {
+          claim += d;
+        }
+      }
+      let claim = claim.unsigned_abs();
+      let tx = Transaction {
+        version: bitcoin::transaction::Version(2),
+        lock_time: bitcoin::absolute::LockTime::ZERO,
+        input: inputs
+          .iter()
+          .map(|o| bitcoin::TxIn {
+            previous_output: *o,
+            script_sig: ScriptBuf::new(),
+            sequence: bitcoin::Sequence::ENABLE_RBF_NO_LOCKTIME,
+            witness: bitcoin::Witness::new(),
+          })
+          .collect(),
+        output,
+      };
+      let mut psbt = bitcoin::Psbt::from_unsigned_tx(tx).ok()?;
+      let unsigned_buyer = flaws.iter().find_map(|f| if let BuyerUnsigned(k) = f { Some(*k) } else { None });
+      let mut buyer_n = 0u8;
+      for (n, o) in inputs.iter().enumerate() {
+        psbt.inputs[n].witness_utxo = Some(view[o].0.clone());
+        let ours = wv.owned.contains(&view[o].0.script_pubkey);
+        if ours {
+          if (has(&SellerPresigned) && Some(*o) == seller_out) || (*extra_signed && Some(*o) != seller_out) {
+            psbt.inputs[n].final_script_witness = Some(foreign_signature(o));
+          }
+          continue;
+        }
+        if unsigned_buyer.map(|k| k % buyer_outs.len().max(1) as u8) == Some(buyer_n) {
+          buyer_n += 1;
+          continue;
+        }
+        if buyer_scriptsig.map(|k| k % buyer_outs.len().max(1) as u8) == Some(buyer_n) {
+          let mut b = bitcoin::script::PushBytesBuf::new();
+          let _ = b.extend_from_slice(&foreign_signature(o).to_vec()[0]);
+          psbt.inputs[n].final_script_sig = Some(bitcoin::script::Builder::new().push_slice(b).into_script());
+        } else {
+          psbt.inputs[n].final_script_witness = Some(foreign_signature(o));
+        }
+        buyer_n += 1;
+      }
+      let mut argv = vec![
+        "offer".to_string(),
+        "accept".into(),
+        "--amount".into(),
+        format!("{claim} sat"),
+        "--inscription".into(),
+        named.to_string(),
+        "--psbt".into(),
+        ord::base64_encode(&psbt.serialize()),
+      ];
+      if *dry_run {
+        argv.push("--dry-run".into());
+      }
+      Some(Resolved {
+        argv,
+        describe: format!(
+          "accept offer for {named} at {claim} sat (flaws {flaws:?}, signing fault {sign_fault:?}, {} inputs)",
+          inputs.len()
+        ),
+        expect: Expect::Accept(Box::new(Offer {
+          psbt,
+          inscription: named,
+          amount: claim,
+          dry_run: *dry_run,
+          sign_fault: *sign_fault,
+        })),
       })
     }
     WalletCmd::Batch {
@@ -727,6 +1058,134 @@ fn settle_batch(
   }
 }
 
+/// An error message without the identifiers and amounts in it (a fact key).
+fn rejection_key(e: &str) -> String {
+  let mut key = String::new();
+  let mut run = String::new();
+  let flush = |run: &mut String, key: &mut String| {
+    if run.len() >= 8 {
+      key.push('#');
+    } else {
+      key.push_str(run);
+    }
+    run.clear();
+  };
+  for c in e.chars().take(160) {
+    if c.is_ascii_hexdigit() || c == '.' || c == ':' {
+      run.push(c);
+    } else {
+      flush(&mut run, &mut key);
+      if c.is_ascii_digit() { key.push('#') } else { key.push(c) }
+    }
+  }
+  flush(&mut run, &mut key);
+  let key: String = key.chars().map(|c| if c.is_ascii_digit() { '#' } else { c }).collect();
+  key.chars().take(70).collect()
+}
+
+/// C24: whatever the wallet asked the node to sign, and whatever it then tried
+/// to broadcast, audited against the reference model and the offer as presented.
+fn audit_offer(
+  m: &Model,
+  wv: &WalletView,
+  offer: &Offer,
+  signs: &[bitcoin::Psbt],
+  attempts: &[Transaction],
+  describe: &str,
+  out: &mut Vec<Violation>,
+) {
+  let presented = &offer.psbt;
+  let tx = &presented.unsigned_tx;
+  let owned = |o: &OutPoint| m.utxos.get(o).is_some_and(|u| wv.owned.contains(&u.script));
+  let ours: Vec<usize> = (0..tx.input.len()).filter(|n| owned(&tx.input[*n].previous_output)).collect();
+  let mut bad = |class: &str, detail: String| out.push(v("C24", class, format!("{describe}: {detail}")));
+  if offer.dry_run && (!signs.is_empty() || !attempts.is_empty()) {
+    bad("dry_run_signed", "--dry-run asked the node to sign or broadcast".into());
+  }
+  for request in signs {
+    if request.unsigned_tx != *tx {
+      bad("signed_another_transaction", "the transaction handed to the node for signing is not the presented one".into());
+      continue;
+    }
+    if ours.len() != 1 {
+      bad(
+        "signed_with_wallet_inputs",
+        format!("signed an offer that spends {} wallet outputs", ours.len()),
+      );
+      continue;
+    }
+    let seller = tx.input[ours[0]].previous_output;
+    let ids = inscriptions_on(m, &seller);
+    if ids != vec![offer.inscription] {
+      bad(
+        "signed_wrong_inscriptions",
+        format!("signed away {seller}, which holds {ids:?}; the command named {}", offer.inscription),
+      );
+    }
+    let runes = holdings(m, &seller).0;
+    if !runes.is_empty() {
+      bad("signed_runes_away", format!("signed away {seller}, which holds runes {runes:?}"));
+    }
+    let received: u64 = tx
+      .output
+      .iter()
+      .filter(|o| wv.owned.contains(&o.script_pubkey))
+      .map(|o| o.value.to_sat())
+      .sum();
+    let given: u64 = ours
+      .iter()
+      .map(|n| m.utxos[&tx.input[*n].previous_output].value)
+      .sum();
+    let change = received as i64 - given as i64;
+    if change != offer.amount as i64 {
+      bad(
+        "signed_wrong_amount",
+        format!("signed an offer that changes the wallet's balance by {change} sat; the command named {} sat", offer.amount),
+      );
+    }
+    for (n, input) in presented.inputs.iter().enumerate() {
+      if n != ours[0] && input.final_script_sig.is_none() && input.final_script_witness.is_none() {
+        bad(
+          "signed_before_counterparty",
+          format!("signed although input {n} ({}) of the counterparty is not signed", tx.input[n].previous_output),
+        );
+      }
+    }
+  }
+  for sent in attempts {
+    if ours.len() != 1 {
+      bad("broadcast_invalid_offer", format!("broadcast an offer that spends {} wallet outputs", ours.len()));
+      continue;
+    }
+    if sent.input.len() != tx.input.len() {
+      bad(
+        "broadcast_other_inputs",
+        format!("broadcast a transaction with {} inputs, the offer has {}", sent.input.len(), tx.input.len()),
+      );
+      continue;
+    }
+    for (n, input) in presented.inputs.iter().enumerate() {
+      if n == ours[0] {
+        continue;
+      }
+      let was_sig = input.final_script_sig.clone().unwrap_or_default();
+      let was_wit = input.final_script_witness.clone().unwrap_or_default();
+      if sent.input[n].previous_output != tx.input[n].previous_output
+        || sent.input[n].script_sig != was_sig
+        || sent.input[n].witness != was_wit
+      {
+        bad(
+          "counterparty_signature_changed",
+          format!(
+            "broadcast a transaction in which the signature of input {n} ({}) differs from the one presented",
+            tx.input[n].previous_output
+          ),
+        );
+      }
+    }
+  }
+}
+
 /// Runes and inscriptions held by an output, by the reference model.
 fn holdings(m: &Model, o: &OutPoint) -> (BTreeMap<RuneId, u128>, usize) {
   let runes = m.runes.balances.get(o).cloned().unwrap_or_default();
@@ -778,6 +1237,8 @@ pub fn run_wallet(property: &str, sc: &Scenario) -> RunReport {
   let mut succeeded = 0u64;
   let mut rejected: BTreeMap<String, u64> = BTreeMap::new();
   let mut funded_inputs = 0u64;
+  let mut offers_signed = 0u64;
+  let mut offers_accepted = 0u64;
 
   for op in &sc.ops {
     if stop {
@@ -961,6 +1422,13 @@ pub fn run_wallet(property: &str, sc: &Scenario) -> RunReport {
         ]);
         args.extend(resolved.argv.clone());
         let n_before = ex.sim.snapshot(|s| s.world.wallet_side.broadcasts.len());
+        let (n_signs, n_attempts) = ex.sim.snapshot(|s| {
+          s.world.wallet_side.sign_fault = match &resolved.expect {
+            Expect::Accept(offer) => offer.sign_fault,
+            _ => None,
+          };
+          (s.world.wallet_side.sign_requests.len(), s.world.wallet_side.send_attempts.len())
+        });
         commands += 1;
         let result = ex.cli(&args);
         let panics = crate::exec::take_panics();
@@ -980,9 +1448,27 @@ pub fn run_wallet(property: &str, sc: &Scenario) -> RunReport {
             if std::env::var_os("ORDSIM_VERBOSE").is_some() {
               eprintln!("wallet command {:?} failed: {e}", resolved.argv);
             }
-            let key: String = e.chars().take(60).collect();
+            let key = rejection_key(e);
             *rejected.entry(key).or_default() += 1;
           }
+        }
+
+        if let Expect::Accept(offer) = &resolved.expect {
+          ctx.report.checks += 1;
+          let (signs, attempts) = ex.sim.snapshot(|s| {
+            s.world.wallet_side.sign_fault = None;
+            (
+              s.world.wallet_side.sign_requests[n_signs..].to_vec(),
+              s.world.wallet_side.send_attempts[n_attempts..].to_vec(),
+            )
+          });
+          if !signs.is_empty() {
+            offers_signed += 1;
+          }
+          if result.is_ok() && !txs.is_empty() {
+            offers_accepted += 1;
+          }
+          audit_offer(&before, &wv, offer, &signs, &attempts, &resolved.describe, &mut out);
         }
 
         // C23: what was broadcast must not spend inscribed or runic outputs
@@ -1071,6 +1557,12 @@ pub fn run_wallet(property: &str, sc: &Scenario) -> RunReport {
   ctx.report.facts.insert("wallet.funded_inputs_audited".into(), funded_inputs);
   ctx.report.facts.insert("wallet.coin_selections".into(), selections);
   ctx.report.facts.insert("wallet.adversarial_picks".into(), picks);
+  if property == "C24" {
+    let fired = ex.sim.snapshot(|s| s.world.wallet_side.sign_faults_fired);
+    ctx.report.facts.insert("offer.signed".into(), offers_signed);
+    ctx.report.facts.insert("offer.accepted_and_broadcast".into(), offers_accepted);
+    ctx.report.faults.insert("altered_signing_reply".into(), fired);
+  }
   for (k, n) in &rejected {
     ctx.report.facts.insert(format!("wallet.rejected.{k}"), *n);
   }
@@ -1079,7 +1571,7 @@ pub fn run_wallet(property: &str, sc: &Scenario) -> RunReport {
   let mut report = finish_report(ex, ctx.report, sc, final_digest);
   report.facts.extend(facts);
   report.nontrivial = report.checks > 0 && succeeded >= 1;
-  if property == "C21" {
+  if property == "C21" || property == "C24" {
     report.nontrivial = report.checks > 0;
   }
   report.wall_us = start.elapsed().as_micros() as u64;
